@@ -1,39 +1,100 @@
-import DaskModel.Model.SDL
-/-! # C45 — division planning never splits equal index values (theorems) -/
+import DaskModel.Lemmas.SDL
+/-! # C45 — division planning never splits equal index values (theorems)
+
+Model: `Dask.SDL.sdl` (`Model/SDL.lean`), a transliteration of
+`dask.dataframe.io.io.sorted_division_locations`. `sdl seq m = none` models "Python raised"
+(empty input, `npartitions = 0`, IndexError inside the loop) or fuel exhaustion; the theorems below
+hold for **every** sorted input and both modes whenever an answer is produced.
+The invariant of the loop body (`Lemmas/SDL.lean`: `Inv`, `step_inv`, `loop_inv`) rests on two facts:
+every entry of `offsets` is a first-occurrence position (`bisectLeft_mem`), and a sorted sequence
+from which `sorted(set(seq))` drops nothing is strictly increasing (`strict_of_no_dup`).
+-/
 namespace Dask.C45
 open Dask.SDL
 
-/-- `bisectLeft` finds a boundary: everything before it is `< x`. -/
-theorem bisectLeft_lt (xs : List Nat) (x : Nat) (j : Nat) (h : j < bisectLeft xs x) :
-    ∃ v, xs[j]? = some v ∧ v < x := by
-  unfold bisectLeft at h
-  induction xs generalizing j with
-  | nil => simp at h
-  | cons a as ih =>
-    simp only [List.takeWhile_cons] at h
-    split at h
-    · rename_i ha
-      cases j with
-      | zero => exact ⟨a, by simp, by simpa using ha⟩
-      | succ j =>
-        simp only [List.length_cons, Nat.add_lt_add_iff_right] at h
-        obtain ⟨v, hv, hlt⟩ := ih j h
-        exact ⟨v, by simpa using hv, hlt⟩
-    · simp at h
+/-- **Locations strictly increase from 0 to `len(seq)`.** -/
+theorem sdl_locations_strict {seq : List Nat} {m : Mode} {divs locs : List Nat} (hs : Sorted seq)
+    (h : sdl seq m = some (divs, locs)) :
+    locs.head? = some 0 ∧ locs.getLast? = some seq.length ∧ locs.Pairwise (· < ·) := by
+  obtain ⟨s, last, hinv, _, _, rfl⟩ := sdl_final hs h
+  refine ⟨?_, ?_, ?_⟩
+  · rw [List.head?_reverse]
+    cases hl : s.locations with
+    | nil => have := hinv.last0; rw [hl] at this; cases this
+    | cons l ls => have := hinv.last0; rw [hl] at this; simpa [List.getLast?_cons_cons] using this
+  · rw [List.getLast?_reverse]; rfl
+  · rw [List.pairwise_reverse]
+    refine List.pairwise_cons.mpr ⟨?_, hinv.dec⟩
+    -- every recorded location indexes into `seq`
+    intro l hl
+    have hlen := hinv.val.length_eq
+    obtain ⟨k, hk, rfl⟩ := List.getElem_of_mem hl
+    have : ∀ {ds ls : List Nat}, All2 (fun d l => seq[l]? = some d) ds ls → ∀ l ∈ ls, l < seq.length := by
+      intro ds ls hv
+      induction hv with
+      | nil => intro l hl; cases hl
+      | cons hr _ ih =>
+        intro l hl
+        rcases List.mem_cons.mp hl with rfl | hl
+        · exact (List.getElem?_eq_some_iff.mp hr).1
+        · exact ih l hl
+    exact this hinv.val _ hl
 
-/-- …and the element at the boundary (if any) is `≥ x`: no value equal to `x` lies before it. -/
-theorem bisectLeft_ge (xs : List Nat) (x : Nat) (v : Nat) (h : xs[bisectLeft xs x]? = some v) : x ≤ v := by
-  unfold bisectLeft at h
-  induction xs with
-  | nil => simp at h
-  | cons a as ih =>
-    simp only [List.takeWhile_cons] at h
-    split at h
-    · simp only [List.length_cons, List.getElem?_cons_succ] at h
-      exact ih h
-    · rename_i ha
-      simp at h
-      subst h
-      simpa using ha
+/-- **Each division is the value at its location**; the closing division (location `len(seq)`) is
+    the last value. In particular `divisions` and `locations` have the same length. -/
+theorem sdl_division_is_value_at_location {seq : List Nat} {m : Mode} {divs locs : List Nat}
+    (hs : Sorted seq) (h : sdl seq m = some (divs, locs)) :
+    All2 (fun d l => if l = seq.length then seq.getLast? = some d else seq[l]? = some d) divs locs := by
+  obtain ⟨s, last, hinv, hlast, rfl, rfl⟩ := sdl_final hs h
+  apply All2.reverse
+  refine All2.cons (by simpa using hlast) ?_
+  refine All2.imp ?_ hinv.val
+  intro d l hdl
+  have : l < seq.length := (List.getElem?_eq_some_iff.mp hdl).1
+  rw [if_neg (by omega)]
+  exact hdl
+
+theorem sdl_lengths {seq : List Nat} {m : Mode} {divs locs : List Nat} (hs : Sorted seq)
+    (h : sdl seq m = some (divs, locs)) : divs.length = locs.length :=
+  (sdl_division_is_value_at_location hs h).length_eq
+
+/-- the last division is the last value of the sequence -/
+theorem sdl_last {seq : List Nat} {m : Mode} {divs locs : List Nat} (hs : Sorted seq)
+    (h : sdl seq m = some (divs, locs)) : divs.getLast? = seq.getLast? := by
+  obtain ⟨s, last, _, hlast, rfl, _⟩ := sdl_final hs h
+  rw [List.getLast?_reverse, hlast]; rfl
+
+/-- **Equal values never straddle a boundary**: at every interior boundary `l` the value before it
+    is strictly smaller than the value at it (indeed every earlier value is: `FirstOcc`). -/
+theorem sdl_no_straddle {seq : List Nat} {m : Mode} {divs locs : List Nat} (hs : Sorted seq)
+    (h : sdl seq m = some (divs, locs)) :
+    ∀ l ∈ locs, l ≠ 0 → l ≠ seq.length → ∃ a b, seq[l - 1]? = some a ∧ seq[l]? = some b ∧ a < b := by
+  obtain ⟨s, last, hinv, _, _, rfl⟩ := sdl_final hs h
+  intro l hl hl0 hlen
+  simp only [List.mem_reverse, List.mem_cons] at hl
+  rcases hl with hl | hl
+  · exact absurd hl hlen
+  · obtain ⟨v, hv, hbefore⟩ := hinv.first l hl hl0
+    obtain ⟨w, hw, hwv⟩ := hbefore (l - 1) (by omega)
+    exact ⟨w, v, hw, hv, hwv⟩
+
+/-- stronger form used by C41: *every* value before an interior boundary is strictly smaller than
+    the value at the boundary, so a partition `[l_i, l_{i+1})` holds exactly the half-open key range. -/
+theorem sdl_boundary_first_occurrence {seq : List Nat} {m : Mode} {divs locs : List Nat} (hs : Sorted seq)
+    (h : sdl seq m = some (divs, locs)) :
+    ∀ l ∈ locs, l ≠ 0 → l ≠ seq.length → FirstOcc seq l := by
+  obtain ⟨s, last, hinv, _, _, rfl⟩ := sdl_final hs h
+  intro l hl hl0 hlen
+  simp only [List.mem_reverse, List.mem_cons] at hl
+  rcases hl with hl | hl
+  · exact absurd hl hlen
+  · exact hinv.first l hl hl0
+
+/-! ### non-vacuity: concrete sorted inputs with duplicates on which `sdl` answers -/
+
+example : sdl [0, 0, 1, 1, 1, 1, 2, 2, 4, 5, 5, 5, 5] (.npartitions 4) =
+    some ([0, 1, 2, 5, 5], [0, 2, 6, 9, 13]) := by decide
+example : sdl [0, 0, 0, 0, 1, 1, 1, 2] (.chunksize 3) = some ([0, 1, 2, 2], [0, 4, 7, 8]) := by decide
+example : Sorted [0, 0, 1, 1, 1, 1, 2, 2, 4, 5, 5, 5, 5] := by unfold Sorted; decide
 
 end Dask.C45
